@@ -3,7 +3,8 @@
 int
 sqisign_keypair(unsigned char *pk, unsigned char *sk)
 {
-    int ret = 0;
+    // not implemented for this variant (no encoding of keys and signatures): fail closed
+    int ret = -1;
     // secret_key_t skt;
     // public_key_t pkt = { 0 };
     // secret_key_init(&skt);
@@ -23,7 +24,8 @@ sqisign_sign(unsigned char *sm,
              unsigned long long mlen,
              const unsigned char *sk)
 {
-    int ret = 0;
+    // not implemented for this variant (no encoding of keys and signatures): fail closed
+    int ret = -1;
     // secret_key_t skt;
     // public_key_t pkt = { 0 };
     // signature_t sigt;
@@ -49,7 +51,8 @@ sqisign_open(unsigned char *m,
              unsigned long long smlen,
              const unsigned char *pk)
 {
-    int ret = 0;
+    // not implemented for this variant (no encoding of keys and signatures): fail closed
+    int ret = -1;
     // public_key_t pkt = { 0 };
     // signature_t sigt;
     // signature_init(&sigt);
@@ -76,7 +79,8 @@ sqisign_verify(const unsigned char *m,
                const unsigned char *pk)
 {
 
-    int ret = 0;
+    // not implemented for this variant (no encoding of keys and signatures): fail closed
+    int ret = -1;
     // public_key_t pkt = { 0 };
     // signature_t sigt;
     // signature_init(&sigt);
